@@ -525,13 +525,13 @@ func sigKey(fn *ssa.Function) string {
 // signature (rules never depend on the name itself). Ambiguity or absence is
 // an unresolved anchor.
 var helperSigs = map[string]string{
-	"pkg/curl.Curl.in":                   "(*github.com/wollac/iota-crypto-demo/pkg/curl.Curl)(github.com/iotaledger/iota.go/trinary.Trits,uint)()",
-	"pkg/curl.Curl.out":                  "(*github.com/wollac/iota-crypto-demo/pkg/curl.Curl)(github.com/iotaledger/iota.go/trinary.Trits,uint)()",
+	"pkg/curl.Curl.in":                   "(*github.com/wollac/iota-crypto-demo/pkg/curl.Curl)([]int8,uint)()",
+	"pkg/curl.Curl.out":                  "(*github.com/wollac/iota-crypto-demo/pkg/curl.Curl)([]int8,uint)()",
 	"pkg/curl.Curl.transform":            "(*github.com/wollac/iota-crypto-demo/pkg/curl.Curl)()()",
 	"pkg/curl.sBox":                      "(uint,uint,uint,uint)(uint,uint)",
 	"pkg/pow/v2.sufficientTrailingZeros": "([]byte,uint64)(int)",
 	"pkg/pow/v2.targetHash":              "([]byte,uint64)(*math/big.Int)",
-	"pkg/pow/v2.toInt":                   "(github.com/iotaledger/iota.go/trinary.Trits)(*math/big.Int)",
+	"pkg/pow/v2.toInt":                   "([]int8)(*math/big.Int)",
 	"pkg/pow/v2.tritToUint":              "(int8)(uint64)",
 	"pkg/pow/v2.checkStateTrits":         "(*[243]uint,*[243]uint,int,*math/big.Int)(int)",
 	"pkg/pow/v2.Worker.worker":           "(*github.com/wollac/iota-crypto-demo/pkg/pow/v2.Worker)([]byte,uint64,int,*math/big.Int,*uint32,*uint64)(uint64,error)",
